@@ -3,7 +3,7 @@
    build, where that check is compiled out, it cannot panic at all. *)
 From Coq Require Import Arith ZArith NArith List Bool Lia.
 From DM Require Import Generated.Symbols Model.Outcome Model.Render Model.RSDec Model.Placement Model.Api
-  Proofs.RenderProofs Proofs.PlacementProofs Proofs.DecodeGlue Proofs.RSTotal.
+  Proofs.RenderProofs Proofs.PlacementProofs Proofs.DecodeGlue Proofs.RSTotal Proofs.LDTotal.
 Import ListNotations.
 
 Theorem dm_decode_safe pixels width : safe (dm_decode pixels width).
@@ -13,4 +13,16 @@ Proof.
   assert (length entries = Z.to_nat (zh size * zw size)) as L by (rewrite WL; unfold zh, zw; lia).
   destruct (codewords_total size entries L) as (cw' & CW' & LC & _). rewrite CW in CW'. inversion CW'; subst cw'.
   apply (decode_safe size cw); [exact LC|exact RS].
+Qed.
+
+(* ... and, with the identities (3)/(4) of the Levinson-Durbin recursion proved to be invariants (Proofs/LDInv.v,
+   LDTotal.v), not there either: DataMatrix::decode never panics, in any build *)
+Theorem dm_decode_no_panic pixels width : no_panic (dm_decode pixels width).
+Proof.
+  destruct (dm_decode pixels width) as [v|e|p] eqn:H; try exact I.
+  destruct (dm_decode_panic_source pixels width p H) as (entries & size & cw & TB & CW & RS).
+  destruct (accepts_only_renderings pixels width entries size TB) as (_ & _ & (WL & _)).
+  assert (length entries = Z.to_nat (zh size * zw size)) as L by (rewrite WL; unfold zh, zw; lia).
+  destruct (codewords_total size entries L) as (cw' & CW' & LC & BC). rewrite CW in CW'. inversion CW'; subst cw'.
+  pose proof (decode_np size cw BC LC) as NP. rewrite RS in NP. exact NP.
 Qed.
